@@ -86,6 +86,15 @@ class AsyncContext(object):
     def __enter__(self):
         if not is_asyncio_mode():
             self._active_task = enter_context(self)
+            try:
+                self.resume()
+            except BaseException:
+                # The block is not entered, so __exit__ will not run: unregister the context,
+                # or the task keeps pausing and resuming it for the rest of its life.
+                leave_context(self, self._active_task)
+                del self._active_task
+                raise
+            return self
 
         self.resume()
         return self
